@@ -262,6 +262,8 @@ func genTestCase(t *rapid.T) *TestCase {
 		tc.InPkg = append(tc.InPkg, tc.Pkg.Refs[rapid.IntRange(0, len(tc.Pkg.Refs)-1).Draw(t, "ref")].Stmt)
 	}
 	tc.External = rapid.Bool().Draw(t, "external")
+	// a third of the packages are displayed under other file names and line numbers (//line comments)
+	tc.Pkg.LineDir = rapid.IntRange(0, 2).Draw(t, "linedirective") == 0
 	return tc
 }
 
@@ -305,11 +307,12 @@ func evaluateTests(tc *TestCase) (msg string, infra string) {
 		if !strings.HasPrefix(v.Path, "m/p") || strings.HasSuffix(v.Path, ".test") {
 			continue
 		}
+		// the command prints displayed positions (after //line comments)
 		for _, o := range v.Result.Used {
-			usedSomewhere[okey{filepath.Base(o.Position.Filename), o.Position.Line, o.Name}] = true
+			usedSomewhere[okey{filepath.Base(o.DisplayPosition.Filename), o.DisplayPosition.Line, o.Name}] = true
 		}
 		for _, o := range v.Result.Unused {
-			unusedSomewhere[okey{filepath.Base(o.Position.Filename), o.Position.Line, o.Name}] = true
+			unusedSomewhere[okey{filepath.Base(o.DisplayPosition.Filename), o.DisplayPosition.Line, o.Name}] = true
 		}
 	}
 	cache, _ := os.MkdirTemp("", "c17cache-")
@@ -358,7 +361,11 @@ func evaluateTests(tc *TestCase) (msg string, infra string) {
 		}
 	}
 	nt := variants >= 2 && nprinted > 0 && len(tc.InPkg) > 0
-	ev.Case(ev.Hash("tests", srcOf(tc.Pkg), strings.Join(tc.InPkg, ";"), fmt.Sprint(tc.External)), nt, "tests_variant_case", fmt.Sprintf("tests_variants_%d", variants))
+	tcls := []string{"tests_variant_case", fmt.Sprintf("tests_variants_%d", variants)}
+	if tc.Pkg.LineDir {
+		tcls = append(tcls, "tests_variant_case_with_line_directives")
+	}
+	ev.Case(ev.Hash("tests", srcOf(tc.Pkg), strings.Join(tc.InPkg, ";"), fmt.Sprint(tc.External)), nt, tcls...)
 	if sb.Len() > 0 {
 		for n, s := range mod {
 			if strings.HasSuffix(n, ".go") {
